@@ -34,22 +34,60 @@ def setup():
     CR.setup_pipeline()
 
 
-def gen(c, k, labels, nkinds=3):
+def gen(c, k, labels, nkinds=3, with_fm=False):
     items = []
+    kept_flags, defined = [], set()
     for i in range(k):
-        kind = c.choose(nkinds)  # 0 ref, 1 def, 2 def in quote
-        items.append((kind, c.pick(labels)))
+        kind = c.choose(nkinds)  # 0 ref, 1 def, 2 def in quote, 3 def written inside the body of the preceding definition
+        lab = c.pick(labels)
+        # nesting only under a definition that is itself kept (the body of a dropped duplicate is dropped with it: outside the claim)
+        if kind == 3 and not (items and items[-1][0] in (1, 3) and kept_flags[-1]):
+            kind = 1
+        kept_flags.append(kind != 0 and lab not in defined)
+        if kind != 0:
+            defined.add(lab)
+        items.append((kind, lab))
     sort = bool(c.choose(2))
     trans = bool(c.choose(2))
+    fm = bool(c.choose(2)) if with_fm else False
     lines = []
+    depth = 0
     for i, (kind, lab) in enumerate(items):
+        if kind == 3:
+            depth += 1
+            while lines and lines[-1] == "":
+                lines.pop()
+            lines += ["", "    " * depth + "[^%s]: D%d definition" % (lab, i), ""]
+            continue
+        depth = 0
         if kind == 0:
             lines += ["R%d text[^%s] more" % (i, lab), ""]
         elif kind == 1:
             lines += ["[^%s]: D%d definition" % (lab, i), ""]
         else:
             lines += ["> [^%s]: D%d definition" % (lab, i), ""]
-    return "\n".join(lines) + "\n", dict(items=items, sort=sort, trans=trans)
+    if fm:
+        # the effective settings come from the front matter; the global settings say the opposite
+        lines = ["---", "myst:", "  footnote_sort: %s" % str(sort).lower(), "  footnote_transition: %s" % str(trans).lower(), "---", ""] + lines
+    return "\n".join(lines) + "\n", dict(items=items, sort=sort, trans=trans, fm=fm)
+
+
+def settings_for(spec):
+    if spec.get("fm"):
+        return {"myst_footnote_sort": not spec["sort"], "myst_footnote_transition": not spec["trans"]}
+    return {"myst_footnote_sort": spec["sort"], "myst_footnote_transition": spec["trans"]}
+
+
+def _own_text(f):
+    """Text of a footnote without the text of footnotes nested in it."""
+    from docutils import nodes
+
+    out = []
+    for ch in f.children:
+        if isinstance(ch, nodes.footnote):
+            continue
+        out.append(_own_text(ch) if isinstance(ch, nodes.Element) else str(ch))
+    return "".join(out)
 
 
 def _label_key(s):
@@ -67,7 +105,7 @@ def check(doc, warn, spec):
     kept = {}
     dup = 0
     for i, (kind, lab) in enumerate(items):
-        if kind in (1, 2):
+        if kind != 0:
             if lab in kept:
                 dup += 1
             else:
@@ -79,7 +117,7 @@ def check(doc, warn, spec):
     fns = list(doc.findall(nodes.footnote))
     by_marker = {}
     for f in fns:
-        txt = f.astext()
+        txt = _own_text(f)
         for lab, i in kept.items():
             if "D%d definition" % i in txt:
                 by_marker[lab] = f
@@ -160,7 +198,7 @@ def check(doc, warn, spec):
     else:
         for lab, f in by_marker.items():
             kind = items[kept[lab]][0]
-            if (kind == 2) != isinstance(f.parent, nodes.block_quote):
+            if (kind == 2) != isinstance(f.parent, nodes.block_quote) or (kind == 3) != isinstance(f.parent, nodes.footnote):
                 return ("moved-although-unsorted", "footnote_sort off: [^%s] was moved (parent %s)" % (lab, f.parent.tagname))
         if any(True for _ in doc.findall(nodes.transition)):
             return ("transition-count", "footnote_sort off but a transition was added")
@@ -177,7 +215,7 @@ def check(doc, warn, spec):
     return None
 
 
-def make(eng, k, labels, nkinds=3):
+def make(eng, k, labels, nkinds=3, with_fm=False):
     setup()
     c = CR.Choice(eng)
     state = {}
@@ -185,10 +223,10 @@ def make(eng, k, labels, nkinds=3):
 
     def body():
         c.reset()
-        text, spec = gen(c, k, labels, nkinds)
+        text, spec = gen(c, k, labels, nkinds, with_fm)
         state["text"], state["spec"] = text, spec
         try:
-            doc, warn = CR.publish(text, {"myst_footnote_sort": spec["sort"], "myst_footnote_transition": spec["trans"]})
+            doc, warn = CR.publish(text, settings_for(spec))
         except Exception as exc:  # noqa
             eng.fail("pipeline-raises", "%s: %s" % (type(exc).__name__, exc))
         err = check(doc, warn, spec)
@@ -210,6 +248,8 @@ def families(tier, seed):
     for k, labels in ([(2, LABELS), (3, ["a", "b", "1"]), (3, ["a", "1", "\u00b2"]), (4, ["a", "b"])] if q else [(3, LABELS), (3, LABELS + ["\u00b2", "\u0663"]), (4, ["a", "b", "2"]), (4, ["a", "2", "\u00b2"]), (5, ["a", "b"]), (4, LABELS)]):
         F.append(Family("arr/K%d-L%d%s" % (k, len(labels), "u" if any(ord(ch) > 127 for l in labels for ch in l) else ""), make, "all arrangements of %d items (reference / definition / definition in a block quote) over labels %r x footnote_sort x footnote_transition" % (k, labels),
                         args=dict(k=k, labels=labels), nontrivial=("linked" if k >= 3 else None), max_forks=400000, required=(k <= 4 and len(labels) <= 3 or k <= 3)))
+    F.append(Family("arr/K3-nested+frontmatter", make, "3 items (reference / definition / definition in a quote / definition nested in the body of the preceding definition) over labels ['a', '1'] x settings given globally or "
+                    "overridden in the front matter (global value opposite)", args=dict(k=3, labels=["a", "1"], nkinds=4, with_fm=True), nontrivial="linked", max_forks=400000))
     F.append(Family("arr/K5-L2-flat", make, "all arrangements of 5 items (reference / definition) over labels ['a', 'b'] x both settings (repeated references between other labels' first references)",
                     args=dict(k=5, labels=["a", "b"], nkinds=2), nontrivial="linked", max_forks=400000))
     if not q:
@@ -219,9 +259,9 @@ def families(tier, seed):
 
 def replay(label, witness):
     spec = witness["spec"]
-    spec = dict(items=[tuple(x) for x in spec["items"]], sort=spec["sort"], trans=spec["trans"])
+    spec = dict(items=[tuple(x) for x in spec["items"]], sort=spec["sort"], trans=spec["trans"], fm=spec.get("fm", False))
     try:
-        doc, warn = CR.publish(witness["text"], {"myst_footnote_sort": spec["sort"], "myst_footnote_transition": spec["trans"]}, real=True)
+        doc, warn = CR.publish(witness["text"], settings_for(spec), real=True)
     except Exception as e:  # noqa
         return ("C11/exception:%s" % type(e).__name__, "%r on %r" % (e, witness["text"]))
     err = check(doc, warn, spec)
